@@ -225,6 +225,8 @@ pub struct World {
     /// semantic transactions of the blocks removed by the last accepted reorg (oldest first)
     pub orphaned: Vec<Vec<Tx>>,
     pub resubmit_counter: u32,
+    /// raw signed transactions by scenario tx id (for byte-identical re-inscriptions)
+    pub raw_sent: BTreeMap<u32, Vec<u8>>,
 }
 
 impl World {
@@ -250,6 +252,7 @@ impl World {
             noop_reorg_at: None,
             orphaned: vec![],
             resubmit_counter: 0,
+            raw_sent: BTreeMap::new(),
         }
     }
 
@@ -674,6 +677,7 @@ impl World {
                     (None, None) => (None, self.cd_bytes(data)),
                 };
                 let raw = self.sign_tx(*s, n, to_addr, input, *chain_ok);
+                self.raw_sent.insert(tx.id, raw.clone());
                 let (d, b64) = Self::payload_fields(&tx.enc, &raw);
                 let r = self.block_call(
                     "brc20_transact",
@@ -686,6 +690,25 @@ impl World {
                         for rc in arr.clone() {
                             let kind = if deploy.is_some() { "store" } else { "" };
                             self.absorb_receipt(&rc, &insc, kind);
+                            self.bump_open();
+                        }
+                    }
+                }
+                r
+            }
+            TxKind::Resend { of } => {
+                let raw = self.raw_sent.get(of).cloned().unwrap_or_else(|| vec![0xc0]);
+                let (d, b64) = Self::payload_fields(&tx.enc, &raw);
+                let r = self.block_call(
+                    "brc20_transact",
+                    json!({"raw_tx_data": d, "base64_raw_tx_data": b64, "timestamp": ts, "hash": hash_param,
+                           "tx_idx": tx_idx, "inscription_id": insc, "inscription_byte_len": byte_len,
+                           "op_return_tx_id": txid_for(tx.id)}),
+                );
+                if let Resp::Ok(v) = &r {
+                    if let Some(arr) = v.as_array() {
+                        for rc in arr.clone() {
+                            self.absorb_receipt(&rc, &insc, "");
                             self.bump_open();
                         }
                     }
